@@ -133,6 +133,16 @@ SerializeTx(tx) ==
     IF HasWitness(tx) THEN tx.version \o <<0, 1>> \o SerVin(tx) \o SerVout(tx) \o ConcatMap(SerWitStack, tx.wit, 1) \o tx.locktime
     ELSE SerNoWitness(tx)
 
+\* hex text as the tools read it: white space between digits is ignored; anything else that is not a hex digit, or an odd
+\* number of digits, makes the text unusable.  <<ok, bytes>>
+HexDigitVal(c) == IF c >= 48 /\ c <= 57 THEN c - 48 ELSE IF c >= 97 /\ c <= 102 THEN c - 87 ELSE IF c >= 65 /\ c <= 70 THEN c - 55 ELSE -1
+IsSpace(c) == c \in {32, 9, 10, 11, 12, 13}
+PairUp(ds) == [i \in 1..(Len(ds) \div 2) |-> 16 * ds[2 * i - 1] + ds[2 * i]]
+HexText(codes) ==
+    LET kept == SelectSeq(codes, LAMBDA c : ~IsSpace(c))
+        vals == [i \in 1..Len(kept) |-> HexDigitVal(kept[i])]
+    IN IF (\E i \in 1..Len(vals) : vals[i] < 0) \/ Len(vals) % 2 = 1 THEN <<FALSE, <<>>>> ELSE <<TRUE, PairUp(vals)>>
+
 TxId(tx) == Hash256(SerNoWitness(tx))            \* internal byte order; displayed reversed
 WTxId(tx) == Hash256(SerializeTx(tx))
 =============================================================================
